@@ -65,6 +65,10 @@ CHECKS = {
     "C17": dict(engine="dsched", technique="property-based testing with a controlled scheduler: Hypothesis-generated concurrent programs on queues/stacks, the hash table and read-side primitives; at a generated step every other thread is suspended wherever it is and one thread runs documented wait-free/lock-free/non-blocking operations solo; oracle: returns, no wait hint reached, own-step bound, WOULDBLOCK only with an operation in flight",
                 text="The schedule (including the suspension point of every other thread) is part of the generated case, so 'finishes wherever other threads are suspended' is observed directly: the solo operation must return without ever calling caa_cpu_relax/poll/futex-wait/contended mutex and within a step bound. Exploration over suspension points.",
                 ref="DESIGN.md §6 C17"),
+    "C20": dict(engine="libfuzzer+native", technique="coverage-guided fuzzing (libFuzzer) plus exhaustive boundary-grid enumeration with a differential oracle (plain-C reference vs eight builds of the real uatomic macros: x86 asm / compiler builtins, C / C++, clang / gcc); Hypothesis-generated multi-threaded hammer cases on real hardware with conservation oracles; store-buffer litmus with a mandatory positive control",
+                text="Sequential semantics: returned value, stored value truncated to the width and untouched neighbours for every type, operation, aligned position and boundary operand (2.3 million grid cases enumerated completely plus millions of fuzzed ones). Concurrency: generated packings of mixed-width operands in one word hammered by 2-8 pinned threads; lost updates, duplicated add_return results, lost tokens, clobbered neighbours are conservation violations. Barriers: forbidden litmus outcome must never appear while the control shows it. Exploration.",
+                ref="DESIGN.md §6 C20",
+                note="Trusted base: the plain-C reference in fuzz/uat_fuzz.cc, libFuzzer, Hypothesis, this machine's x86-64 cores for the concurrent part (atomicity and barriers are observed on the executions that happened, not proven), the harness's own __atomic-builtin start barrier."),
 }
 NOT_YET = "check not built yet in this session (planned: see DESIGN.md §6)"
 
@@ -73,7 +77,7 @@ def main():
     hooks_commits = subprocess.run(["git", "-C", "/repo", "log", "--format=%H", "--grep=^verif hooks"], capture_output=True, text=True).stdout.split()
     m = {
         "version": 1,
-        "setup_cmd": "python3 engine/build.py >/dev/null && python3 fuzz/fzbuild.py lfht_fuzz >/dev/null && python3-vt -c 'import hypothesis'",
+        "setup_cmd": "python3 engine/build.py >/dev/null && python3 fuzz/fzbuild.py lfht_fuzz >/dev/null && python3 fuzz/fzbuild.py uat_fuzz >/dev/null && python3 native/nbuild.py >/dev/null && python3-vt -c 'import hypothesis'",
         "hooks": {
             "guard": "URCU_VERIF",
             "enable": "checks compile /repo/src and /repo/include themselves (engine/build.py, fuzz/build.py) with -DURCU_VERIF plus -DURCU_VERIF_<CONSTANT>=<value> overrides; the autotools build in /repo is never used by the checks",
@@ -84,6 +88,7 @@ def main():
         "engines": [
             {"name": "libfuzzer", "path": "fuzz/", "serves_properties": sorted(k for k, v in CHECKS.items() if "libfuzzer" in v["engine"]),
              "kind_free_text": "libFuzzer model-based targets (clang -fsanitize=fuzzer,address,undefined), structural decoding of bytes into configuration + operation sequence, reference model compared after every step"},
+            {"name": "native", "path": "native/", "serves_properties": ["C20"], "kind_free_text": "native multi-threaded harness on real hardware (gcc -O2, x86 asm and builtins configurations, C and C++), cases generated by Hypothesis; store-buffer litmus"},
             {"name": "dsched", "path": "engine/", "serves_properties": sorted(k for k, v in CHECKS.items() if "dsched" in v["engine"]),
              "kind_free_text": "deterministic controlled-concurrency engine: real library sources instrumented with gcc -fsanitize=thread (instrumentation only), baton scheduler, x86-TSO store buffers, fault/signal injection, shadow heap; cases generated and shrunk by Hypothesis"},
         ],
